@@ -42,10 +42,13 @@ type Program struct {
 	CG       *callgraph.Graph
 	cgKind   string
 
+	siteCallees map[ssa.CallInstruction][]*ssa.Function
+
 	Roots     []*Root
 	rootByFn  map[*ssa.Function]*Root
 	reachH    map[*ssa.Function]*ssa.Function // reachable from H/G roots -> predecessor (for path)
 	reachRoot map[*ssa.Function]*Root
+	reachS    map[*ssa.Function]bool // reachable from main/init without going through opaque library code
 }
 
 // Root is an entry point.
@@ -148,6 +151,7 @@ func loadProgram(repoDir string, cgKind string) (*Program, error) {
 	}
 	p.findRoots()
 	p.computeReach()
+	p.computeReachS()
 	return p, nil
 }
 
@@ -465,20 +469,29 @@ func (p *Program) calleesAt(site ssa.CallInstruction) []*ssa.Function {
 	if c := site.Common().StaticCallee(); c != nil {
 		return []*ssa.Function{c}
 	}
-	n := p.CG.Nodes[site.Parent()]
-	if n == nil {
-		return nil
-	}
-	seen := map[*ssa.Function]bool{}
-	var out []*ssa.Function
-	for _, e := range n.Out {
-		if e.Site == site && e.Callee.Func != nil && !seen[e.Callee.Func] {
-			seen[e.Callee.Func] = true
-			out = append(out, e.Callee.Func)
+	if p.siteCallees == nil {
+		p.siteCallees = map[ssa.CallInstruction][]*ssa.Function{}
+		for _, n := range p.CG.Nodes {
+			for _, e := range n.Out {
+				if e.Site == nil || e.Callee.Func == nil {
+					continue
+				}
+				dup := false
+				for _, f := range p.siteCallees[e.Site] {
+					if f == e.Callee.Func {
+						dup = true
+					}
+				}
+				if !dup {
+					p.siteCallees[e.Site] = append(p.siteCallees[e.Site], e.Callee.Func)
+				}
+			}
+		}
+		for _, l := range p.siteCallees {
+			sort.Slice(l, func(i, j int) bool { return l[i].String() < l[j].String() })
 		}
 	}
-	sort.Slice(out, func(i, j int) bool { return out[i].String() < out[j].String() })
-	return out
+	return p.siteCallees[site]
 }
 
 // callersOf returns the call sites (in any function) that may call fn.
@@ -592,4 +605,44 @@ func (p *Program) allRepoFuncs() []*ssa.Function {
 	}
 	sort.Slice(out, func(i, j int) bool { return out[i].String() < out[j].String() })
 	return out
+}
+
+// computeReachS: functions that may run at start-up: reachable from main and
+// package initialisers through repository code and the transparent data
+// libraries (closures created in a reachable function count as reachable).
+func (p *Program) computeReachS() {
+	p.reachS = map[*ssa.Function]bool{}
+	var q []*ssa.Function
+	add := func(f *ssa.Function) {
+		if f != nil && !p.reachS[f] {
+			p.reachS[f] = true
+			q = append(q, f)
+		}
+	}
+	for _, sp := range p.SSA.AllPackages() {
+		if !isRepoPkgPath(sp.Pkg.Path()) {
+			continue
+		}
+		add(sp.Func("init"))
+		add(sp.Func("main"))
+	}
+	for len(q) > 0 {
+		fn := q[0]
+		q = q[1:]
+		for _, an := range fn.AnonFuncs {
+			// handler closures registered at start-up are not executed at start-up
+			if _, isRoot := p.rootByFn[an]; !isRoot {
+				add(an)
+			}
+		}
+		for _, c := range p.callees(fn) {
+			if _, isRoot := p.rootByFn[c]; isRoot {
+				continue
+			}
+			pk := calleePkgPath(c)
+			if isRepoPkgPath(pk) || isTransparentLib(pk) {
+				add(c)
+			}
+		}
+	}
 }
